@@ -12,7 +12,7 @@ def run(ctx):
           ["CreateItem", 2, 2, 1, 4, False, "Reporting", -1]]
     one = consts(SubIds={1}, ItemIds={1}, Nodes={1}, Vals={0, 1, 2}, Acts={"Write", "Pub", "Tick"}, Scripts=scripts([s1]),
                  MaxWrites=4, MaxPubs=4, MaxTicks=6, Dts={1}, AckModes={"none", "all"}, MaxDepth=2 + (9 if q else 11))
-    two = consts(SubIds={1, 2}, ItemIds={1, 2}, Nodes={1, 2}, Vals={0, 1}, Acts={"Write", "Pub", "Tick", "DeleteItem", "DeleteSub", "SetPubMode"},
+    two = consts(SubIds={1, 2}, ItemIds={1, 2}, Nodes={1, 2}, Vals={0, 1}, Acts={"Write", "Pub", "Tick", "DeleteItem", "DeleteSub", "SetPubMode", "SetMode"},
                  Scripts=scripts([s2]), MaxWrites=3, MaxPubs=4, MaxTicks=5, Dts={1, 2}, AckModes={"none"},
                  MaxDepth=5 + (6 if q else 8))
     ctx.model_check("design_one", "MCSubs", dict(one, Mons={"C21"}), ["C21"], view="MView")
